@@ -46,6 +46,7 @@ import Penguin.Model.HttpProxy
 import Penguin.Lemmas.HttpProxy
 import Penguin.Lemmas.RemoteSpecKind
 import Penguin.Model.Dispatch
+import Penguin.Model.FixedTarget
 
 namespace Penguin.C01
 open Penguin Penguin.Constants
@@ -1303,5 +1304,186 @@ example : dispatch ⟨.stdio, .tproxy, .tcp⟩ = .unreachable := by decide
 example : (dispatch ⟨.domainSocket "/p".toList, .inet "h".toList 1, .udp⟩).isUdp = false := by decide
 
 end Dispatch
+
+end Penguin.C01
+
+namespace Penguin.C01
+
+/-! ### Fixed-target entry points -/
+section FixedTarget
+open Penguin Penguin.Constants Penguin.UdpMap Penguin.FixedTarget
+
+set_option maxRecDepth 8192 in
+/-- Source-shape tie: the statements of `handle_udp`, `handle_tcp` (before the loop and inside it, in order) and of
+    `request_tcp_channel`, regenerated from the source, are the ones `Model/FixedTarget.lean` was transcribed from:
+    in `handle_udp` ONE `recv_from` per iteration, `client_id` is what `add_udp_client` returns for THAT `addr`, the
+    frame is `{ target_host: rhost, target_port: rport, flow_id: client_id, data: buf }`, one send; in `handle_tcp`
+    reserve, accept, `request_tcp_channel(permit, rhost, rport)`, `into_copy_bidirectional`, in this order. -/
+theorem fixed_target_shape_as_in_source :
+    fixedUdpPrelude = udpPreludeTexts ∧ fixedUdpLoop = udpLoopTexts ∧ fixedUdpFrame = udpFrameTexts ∧
+    fixedTcpPrelude = tcpPreludeTexts ∧ fixedTcpLoop = tcpLoopTexts ∧
+    fixedRequestParams = requestParamsTexts ∧ fixedRequestBody = requestBodyTexts := by decide
+
+/-- One iteration of `handle_tcp`, every answer of the environment: every tunnel request is for exactly the configured
+    (rhost, rport) and there is at most one; a connection is accepted only with a permit in hand and every accepted
+    connection has its request made; it is bridged exactly when permit, connection and stream were obtained, otherwise
+    it is dropped and the handler ends with the fatal error of the source; when the main loop is gone at `reserve`
+    nothing is accepted and nothing requested; a failing bridge is logged and ends nothing. -/
+theorem tcp_entry_requests_exactly_the_configured_target (rhost : Bytes) (rport : Nat) (env : TcpEnv) :
+    let o := tcpSession rhost rport env
+    (∀ h p, Event.requested h p ∈ o.events → h = rhost ∧ p = rport) ∧
+    o.events.countP Event.isRequest ≤ 1 ∧
+    (Event.accepted ∈ o.events ↔ env.reserveOk = true ∧ env.acceptOk = true) ∧
+    (Event.requested rhost rport ∈ o.events ↔ Event.accepted ∈ o.events) ∧
+    (Event.bridged ∈ o.events ↔ env.reserveOk = true ∧ env.acceptOk = true ∧ env.streamOk = true) ∧
+    (Event.accepted ∈ o.events → (Event.bridged ∈ o.events ↔ Event.dropped ∉ o.events)) ∧
+    (env.reserveOk = false → o.events = [] ∧ o.fatal = some .requestStream) ∧
+    (o.fatal = none ↔ Event.bridged ∈ o.events) ∧
+    (Event.dropped ∈ o.events → o.fatal = some .mainLoopExitWithoutSendingStream) := by
+  obtain ⟨a, b, c, d⟩ := env
+  cases a <;> cases b <;> cases c <;> cases d <;> simp [tcpSession, Event.isRequest, List.countP_cons]
+
+/-- The whole accept loop, every script of answers: only the configured target is ever requested, exactly one request
+    per accepted connection, never more bridges than requests. -/
+theorem tcp_listener_one_request_per_accepted_connection (rhost : Bytes) (rport : Nat) (envs : List TcpEnv) :
+    let o := tcpListener rhost rport envs
+    (∀ h p, Event.requested h p ∈ o.events → h = rhost ∧ p = rport) ∧
+    o.events.countP Event.isRequest = o.events.count .accepted ∧
+    o.events.count .bridged ≤ o.events.countP Event.isRequest := by
+  induction envs with
+  | nil => simp [tcpListener]
+  | cons env rest ih =>
+    obtain ⟨ih1, ih2, ih3⟩ := ih
+    obtain ⟨a, b, c, d⟩ := env
+    cases a <;> cases b <;> cases c <;> cases d <;>
+      simp [tcpListener, tcpSession, Event.isRequest, List.countP_cons] <;>
+      first | exact ⟨ih1, ih2, ih3⟩ | (refine ⟨?_, by omega, by omega⟩; intro h p hh; rcases hh with hh | hh; exact hh; exact ih1 h p hh)
+
+example : tcpSession [0x68] 80 ⟨true, true, true, false⟩ =
+    ⟨[.reserved, .accepted, .requested [0x68] 80, .gotStream, .bridged, .bridgeErrorLogged], none⟩ := by decide
+example : tcpSession [0x68] 80 ⟨true, true, false, true⟩ =
+    ⟨[.reserved, .accepted, .requested [0x68] 80, .dropped], some .mainLoopExitWithoutSendingStream⟩ := by decide
+example : tcpSession [0x68] 80 ⟨false, true, true, true⟩ = ⟨[], some .requestStream⟩ := by decide
+example : (tcpListener [0x68] 80 [⟨true, true, true, true⟩, ⟨true, true, true, false⟩, ⟨true, false, true, true⟩, ⟨true, true, true, true⟩]) =
+    ⟨[.reserved, .accepted, .requested [0x68] 80, .gotStream, .bridged,
+      .reserved, .accepted, .requested [0x68] 80, .gotStream, .bridged, .bridgeErrorLogged, .reserved], some .clientIo⟩ := by decide
+
+private theorem udpIter_fst (c : UdpCfg) (m : Maps) (i : UIn) : (udpIter c m i).1 = (step m (toOp c i)).1 := by
+  cases i with
+  | other op => rfl
+  | rx peer data rng txOk =>
+    simp only [udpIter, toOp, step]
+    split <;> rfl
+
+/-- `handle_udp`, for EVERY sequence of received datagrams from any senders, interleaved with whatever other tasks do
+    to the shared maps, as long as the listener runs (no failing send, no panic): it takes exactly one step per input,
+    and the k-th step, when the k-th input is a datagram `data` from `peer`, sends exactly one frame: flow id = the id
+    `add_udp_client` answers for THAT `peer` on the maps as they are at that moment (`UdpMap.add` after the first k
+    inputs), target = the handler's own (rhost, rport), payload = `data`; a step of another task sends nothing.  So the
+    frames are the datagrams in order, none dropped, duplicated or sent under another sender's id. -/
+theorem udp_each_datagram_carries_its_senders_id (c : UdpCfg) (m : Maps) (ins : List UIn)
+    (hok : ∀ o ∈ (udpListener c m ins).2, o.stops = false) :
+    (udpListener c m ins).2.length = ins.length ∧
+    (udpListener c m ins).1 = run m (ins.map (toOp c)) ∧
+    (∀ k peer data rng txOk, ins[k]? = some (.rx peer data rng txOk) →
+      ∃ cid, (add (run m ((ins.take k).map (toOp c))) peer c.localAddr c.sock false rng).2 = .id cid ∧
+        (udpListener c m ins).2[k]? = some (.sent { flowId := cid, host := c.rhost, port := c.rport, data := data })) ∧
+    (∀ (k : Nat) (op : UdpMap.Op), ins[k]? = some (UIn.other op) → (udpListener c m ins).2[k]? = some UOut.foreign) := by
+  induction ins generalizing m with
+  | nil => simp [udpListener, run]
+  | cons i rest ih =>
+    have hns : (udpIter c m i).2.stops = false := by
+      apply hok
+      simp only [udpListener]
+      split <;> simp
+    have hl : udpListener c m (i :: rest) =
+        ((udpListener c (udpIter c m i).1 rest).1, (udpIter c m i).2 :: (udpListener c (udpIter c m i).1 rest).2) := by
+      simp [udpListener, hns]
+    rw [hl] at hok ⊢
+    have hrun : ∀ ops, run m (toOp c i :: ops) = run (udpIter c m i).1 ops := by
+      intro ops; simp [run, udpIter_fst]
+    obtain ⟨ih1, ih2, ih3, ih4⟩ := ih (udpIter c m i).1 (fun o ho => hok o (List.mem_cons_of_mem _ ho))
+    refine ⟨by simp [ih1], by simp only [List.map_cons, hrun]; exact ih2, ?_, ?_⟩
+    · intro k peer data rng txOk hk
+      cases k with
+      | zero =>
+        simp only [List.getElem?_cons_zero, Option.some.injEq] at hk
+        subst hk
+        simp only [List.take_zero, List.map_nil, run, List.foldl_nil, List.getElem?_cons_zero, Option.some.injEq]
+        simp only [udpIter] at hns ⊢
+        split at hns
+        · rename_i cid hid
+          refine ⟨cid, hid, ?_⟩
+          cases txOk <;> simp_all [UOut.stops]
+        · simp [UOut.stops] at hns
+        · simp [UOut.stops] at hns
+      | succ k =>
+        simp only [List.getElem?_cons_succ] at hk ⊢
+        simp only [List.take_succ_cons, List.map_cons, hrun]
+        exact ih3 k peer data rng txOk hk
+    · intro k op hk
+      cases k with
+      | zero =>
+        simp only [List.getElem?_cons_zero, Option.some.injEq] at hk
+        subst hk
+        simp [udpIter]
+      | succ k =>
+        simp only [List.getElem?_cons_succ] at hk ⊢
+        exact ih4 k op hk
+
+/-- Same sender, same id; distinct senders, distinct ids — while the entries live.  In a run of the listener from the
+    empty maps: when the k-th datagram (from `p2`) is sent under id `c2` and an id `c1`, under which an earlier datagram
+    from `p1` was sent, still names its entry (for `p1` on this socket) at that moment, then `c1 = c2` exactly when
+    `p1 = p2`.  From `reply_routing` and the bijection `ids_injective`. -/
+theorem udp_same_sender_same_id_distinct_senders_distinct_ids (c : UdpCfg) (ins : List UIn)
+    (hok : ∀ o ∈ (udpListener c {} ins).2, o.stops = false)
+    (j k : Nat) (p1 p2 : Addr) (d1 d2 : Bytes) (r1 r2 : List Nat) (t1 t2 : Bool) (c1 c2 : Nat) (_hjk : j < k)
+    (_hj : ins[j]? = some (.rx p1 d1 r1 t1)) (hk : ins[k]? = some (.rx p2 d2 r2 t2))
+    (_hf1 : (udpListener c {} ins).2[j]? = some (.sent { flowId := c1, host := c.rhost, port := c.rport, data := d1 }))
+    (hf2 : (udpListener c {} ins).2[k]? = some (.sent { flowId := c2, host := c.rhost, port := c.rport, data := d2 }))
+    (hlive : ∃ e, UdpMap.get (run {} ((ins.take (k + 1)).map (toOp c))).idMap c1 = some e ∧ e.peer = p1 ∧ e.our = c.localAddr) :
+    c1 = c2 ↔ p1 = p2 := by
+  obtain ⟨_, _, h3, _⟩ := udp_each_datagram_carries_its_senders_id c {} ins hok
+  obtain ⟨cid, hadd, hs⟩ := h3 k p2 d2 r2 t2 hk
+  rw [hs] at hf2
+  simp only [Option.some.injEq, UOut.sent.injEq, Dgram.mk.injEq] at hf2
+  obtain ⟨rfl, -⟩ := hf2
+  have hstate : run {} ((ins.take (k + 1)).map (toOp c)) =
+      (add (run {} ((ins.take k).map (toOp c))) p2 c.localAddr c.sock false r2).1 := by
+    rw [List.take_add_one, hk]
+    simp [run, List.foldl_append, toOp, step]
+  obtain ⟨e2, hg2, hp2, ho2, -, -⟩ := reply_routing ((ins.take k).map (toOp c)) p2 c.localAddr c.sock false r2 cid hadd
+  rw [← hstate] at hg2
+  obtain ⟨e1, hg1, hp1, ho1⟩ := hlive
+  obtain ⟨-, hinj, -, -⟩ := ids_injective ((ins.take (k + 1)).map (toOp c))
+  constructor
+  · intro h
+    subst h
+    rw [hg1] at hg2
+    cases hg2
+    rw [← hp1, hp2]
+  · intro h
+    exact hinj c1 cid e1 e2 hg1 hg2 (by rw [hp1, hp2, h]) (by rw [ho1, ho2])
+
+/-- Non-vacuity: two senders (addresses 100 and 200) interleaved on the listener bound at 7, the prune task and the
+    clock in between; each frame carries its own sender's id (5 for 100, 9 for 200), the configured target and its own
+    payload. -/
+example : (udpListener ⟨7, 1, [0x68], 53⟩ {}
+      [.rx 100 [1] [5] true, .rx 200 [2] [0, 5, 9] true, .other (.tick 10), .rx 100 [3] [] true, .other .prune,
+       .rx 200 [] [] true, .rx 100 [4] [] true]).2 =
+    [.sent ⟨5, [0x68], 53, [1]⟩, .sent ⟨9, [0x68], 53, [2]⟩, .foreign, .sent ⟨5, [0x68], 53, [3]⟩, .foreign,
+     .sent ⟨9, [0x68], 53, []⟩, .sent ⟨5, [0x68], 53, [4]⟩] := by decide
+example : frames (udpListener ⟨7, 1, [0x68], 53⟩ {} [.rx 100 [1] [5] true, .rx 200 [2] [9] true, .rx 100 [3] [] true]).2 =
+    [⟨5, [0x68], 53, [1]⟩, ⟨9, [0x68], 53, [2]⟩, ⟨5, [0x68], 53, [3]⟩] := by decide
+/-- the hypotheses of the two theorems hold on it (no step stops; the first sender's entry lives at the third datagram) -/
+example : (∀ o ∈ (udpListener ⟨7, 1, [0x68], 53⟩ {} [.rx 100 [1] [5] true, .rx 200 [2] [9] true, .rx 100 [3] [] true]).2,
+      o.stops = false) ∧
+    (UdpMap.get (run {} (([UIn.rx 100 [1] [5] true, .rx 200 [2] [9] true, .rx 100 [3] [] true].take 3).map
+      (toOp ⟨7, 1, [0x68], 53⟩))).idMap 5).map (fun e => (e.peer, e.our)) = some (100, 7) := by decide
+/-- the main loop gone: the listener ends with `SendDatagram`, nothing is sent afterwards -/
+example : (udpListener ⟨7, 1, [0x68], 53⟩ {} [.rx 100 [1] [5] true, .rx 200 [2] [9] false, .rx 100 [3] [] true]).2 =
+    [.sent ⟨5, [0x68], 53, [1]⟩, .fatal .sendDatagram] := by decide
+
+end FixedTarget
 
 end Penguin.C01
